@@ -481,40 +481,6 @@ theorem aggEnvs_inv {O : Oracles} {q : AggStmt} {envs : List (Env × List String
     obtain ⟨⟨s1, u1⟩, h1, h2⟩ := bind_eq_ok h
     exact ih h2 (aggUpdateRow_inv h1 hi)
 
-theorem NP_go (O : Oracles) (q : AggStmt) (envs : List (Env × List String)) (st : AggState) (acc : Option RowOut)
-    (hi : Inv q st) : NP (executeLine.go O q envs st acc) := by
-  induction envs generalizing st acc with
-  | nil => rfl
-  | cons p rest ih =>
-    obtain ⟨env, ks⟩ := p
-    unfold executeLine.go
-    refine NP_bind_ok (NP_aggUpdateRow _ _ _ _) (fun p hp => ?_)
-    obtain ⟨s1, u⟩ := p
-    have i1 := aggUpdateRow_inv hp hi
-    cases u with
-    | false => exact ih _ _ i1
-    | true =>
-      simp only [if_true]
-      refine NP_bind_ok (NP_aggResult O q s1 i1) (fun r hr => ?_)
-      obtain ⟨s2, out⟩ := r
-      exact ih _ _ (aggResult_inv hr i1)
-
-theorem go_inv {O : Oracles} {q : AggStmt} {envs : List (Env × List String)} {st st' : AggState} {acc r : Option RowOut}
-    (h : executeLine.go O q envs st acc = .ok (st', r)) (hi : Inv q st) : Inv q st' := by
-  induction envs generalizing st acc with
-  | nil => simp only [executeLine.go, Outcome.ok.injEq, Prod.mk.injEq] at h; rw [← h.1]; exact hi
-  | cons p rest ih =>
-    obtain ⟨env, ks⟩ := p
-    unfold executeLine.go at h
-    obtain ⟨⟨s1, u⟩, h1, h2⟩ := bind_eq_ok h
-    have i1 := aggUpdateRow_inv h1 hi
-    cases u with
-    | false => exact ih h2 i1
-    | true =>
-      simp only [if_true] at h2
-      obtain ⟨⟨s2, out⟩, hr, h3⟩ := bind_eq_ok h2
-      exact ih h3 (aggResult_inv hr i1)
-
 /-- the invariant of the engine state for a query -/
 def EInv (qy : Query) (es : EngineState) : Prop :=
   match qy.stmt with
@@ -544,7 +510,14 @@ theorem NP_executeLine (O : Oracles) (qy : Query) (idx : JoinIndex) (w : Bool) (
     · split <;> rfl
     · refine NP_bind (NP_lineEnvs _ _ _ _) (fun envs => ?_)
       split
-      · exact NP_bind (NP_go O q envs es.agg none hi) (fun _ => rfl)
+      · refine NP_bind_ok (NP_aggEnvs _ _ _ _ _) (fun p hp => ?_)
+        obtain ⟨s1, u⟩ := p
+        have i1 := aggEnvs_inv hp hi
+        cases u with
+        | false => rfl
+        | true =>
+          simp only [if_true]
+          exact NP_bind (NP_aggResult O q s1 i1) (fun _ => rfl)
       · exact NP_bind (NP_aggEnvs _ _ _ _ _) (fun _ => rfl)
 
 theorem executeLine_inv {O : Oracles} {qy : Query} {idx : JoinIndex} {w : Bool} {es es' : EngineState} {l : Line} {lo : LineOut}
@@ -564,12 +537,21 @@ theorem executeLine_inv {O : Oracles} {qy : Query} {idx : JoinIndex} {w : Bool} 
       cases w with
       | true =>
         simp only [if_true] at h
-        obtain ⟨⟨s1, r⟩, hgo, h⟩ := bind_eq_ok h
-        simp only [pure, Outcome.ok.injEq] at h
-        have := go_inv hgo hi
-        have e : es' = (updateLimit false q.limit { seen := es.seen, agg := s1, numOut := es.numOut } r).1 := by rw [h]
-        rw [e, updateLimit_agg]
-        exact this
+        obtain ⟨⟨s1, u⟩, hagg, h⟩ := bind_eq_ok h
+        have i1 := aggEnvs_inv hagg hi
+        cases u with
+        | false =>
+          simp only [Bool.false_eq_true, if_false, pure, Outcome.ok.injEq] at h
+          have e : es' = (updateLimit false q.limit { seen := es.seen, agg := s1, numOut := es.numOut } none).1 := by rw [h]
+          rw [e, updateLimit_agg]
+          exact i1
+        | true =>
+          simp only [if_true] at h
+          obtain ⟨⟨s2, out⟩, hres, h⟩ := bind_eq_ok h
+          simp only [pure, Outcome.ok.injEq] at h
+          have e : es' = (updateLimit false q.limit { seen := es.seen, agg := s2, numOut := es.numOut } (some out)).1 := by rw [h]
+          rw [e, updateLimit_agg]
+          exact aggResult_inv hres i1
       | false =>
         simp only [Bool.false_eq_true, if_false] at h
         obtain ⟨⟨s1, u⟩, hagg, h⟩ := bind_eq_ok h
